@@ -406,8 +406,59 @@ func verifSpecCL(lowered string) primitive.ConsistencyLevel {
 //@   invariant 0 <= i && i <= 16 && len(hash) == 16 && forall(k, 0, i, uuid[k] == ufInt("md5.byte", name, k))
 //@   invariant forall(k, 0, 16, hash[k] == ufInt("md5.byte", name, k) && 0 <= ufInt("md5.byte", name, k) && ufInt("md5.byte", name, k) <= 255)
 
+//@ func proxy.client.localAddrName [C10]
+//@   requires c != nil && c.proxy != nil && c.proxy.localNode != nil && c.conn != nil
+//@   ensures configured: c.proxy.localNode.addr != nil ==> result == c.proxy.localNode.addr.String()
+//@   modifies nothing
+
 //@ func proxy.client.localIP [C10]
 //@   requires c != nil && c.proxy != nil && c.proxy.localNode != nil && c.conn != nil
+//@   ensures configured: c.proxy.localNode.addr != nil ==> result == c.proxy.localNode.addr.IP
+//@   modifies nothing
+
+// The per-column values of the local row ("values ... equal the configured or backend-derived facts"):
+// what is encoded, under which CQL type, for each column name. $lv* record the one EncodeType call.
+//@ func proxy.client.filterSystemLocalValues$1 [C10]
+//@   captures c != nil && c.proxy != nil && c.proxy.cluster != nil && c.proxy.localNode != nil && c.conn != nil
+//@   local $lvEnc bool = false
+//@   local $lvType datatype.DataType = nil
+//@   local $lvVal interface{} = nil
+//@   local $lvOut message.Column = nil
+//@   local $lvErr error = nil
+//@   local $lvIP net.IP = nil
+//@   local $lvName string = ""
+//@   local $lvUuid primitive.UUID = nameBasedUUID("")
+//@   after codecs.EncodeType#1 set $lvEnc = true; $lvType = arg0; $lvVal = arg2; $lvOut = result0; $lvErr = result1
+//@   after proxy.client.localIP#* set $lvIP = result
+//@   after proxy.nameBasedUUID#1 set $lvName = arg0; $lvUuid = result
+//@   ensures encoded: $lvEnc ==> value == $lvOut && err == $lvErr
+//@   ensures rpc-address: name == "rpc_address" ==> $lvEnc && $lvType == datatype.Inet && typeis($lvVal, net.IP) && as($lvVal, net.IP) == $lvIP
+//@   ensures host-id: name == "host_id" ==> $lvEnc && $lvType == datatype.Uuid && typeis($lvVal, primitive.UUID) && as($lvVal, primitive.UUID) == $lvUuid
+// the id is derived from the same name under which the other proxies list this node (its address text)
+//@   ensures host-id-name: name == "host_id" && c.proxy.localNode.addr != nil ==> $lvName == c.proxy.localNode.addr.String()
+//@   ensures stored-facts: name != "rpc_address" && name != "host_id" && mapHas(c.proxy.systemLocalValues, name) ==> !$lvEnc && err == nil && value == mapGet(c.proxy.systemLocalValues, name)
+//@   ensures count: name != "rpc_address" && name != "host_id" && !mapHas(c.proxy.systemLocalValues, name) && name == "count(*)" ==> !$lvEnc && err == nil && value == encodedOneValue
+//@   ensures unknown-column: name != "rpc_address" && name != "host_id" && !mapHas(c.proxy.systemLocalValues, name) && name != "count(*)" ==> err != nil
+//@   modifies nothing
+
+// The per-column values of a peer row.
+//@ func proxy.client.filterSystemPeerValues$1 [C10]
+//@   captures c != nil && c.proxy != nil && c.proxy.cluster != nil && peer != nil && peer.addr != nil
+//@   local $pvEnc bool = false
+//@   local $pvType datatype.DataType = nil
+//@   local $pvVal interface{} = nil
+//@   local $pvOut message.Column = nil
+//@   local $pvErr error = nil
+//@   local $pvName string = ""
+//@   local $pvUuid primitive.UUID = nameBasedUUID("")
+//@   after codecs.EncodeType#1 set $pvEnc = true; $pvType = arg0; $pvVal = arg2; $pvOut = result0; $pvErr = result1
+//@   after proxy.nameBasedUUID#1 set $pvName = arg0; $pvUuid = result
+//@   ensures encoded: $pvEnc ==> value == $pvOut && err == $pvErr
+//@   ensures data-center: name == "data_center" ==> $pvEnc && $pvType == datatype.Varchar && typeis($pvVal, string) && as($pvVal, string) == peer.dc
+//@   ensures host-id: name == "host_id" ==> $pvEnc && $pvType == datatype.Uuid && typeis($pvVal, primitive.UUID) && as($pvVal, primitive.UUID) == $pvUuid && $pvName == peer.addr.String()
+//@   ensures tokens: name == "tokens" ==> $pvEnc && typeis($pvVal, []string) && as($pvVal, []string) == peer.tokens
+//@   ensures address: name == "peer" || name == "rpc_address" ==> $pvEnc && $pvType == datatype.Inet && typeis($pvVal, net.IP) && as($pvVal, net.IP) == peer.addr.IP
+//@   ensures count: name == "count(*)" && !mapHas(c.proxy.systemLocalValues, name) ==> $pvEnc && $pvType == datatype.Int && typeis($pvVal, int) && as($pvVal, int) == peerCount
 //@   modifies nothing
 
 //@ func proxy.client.filterSystemLocalValues [C10]
@@ -423,6 +474,10 @@ func verifSpecCL(lowered string) primitive.ConsistencyLevel {
 //@ loop proxy.client.interceptSystemQuery #1
 //@   invariant data == nil || fresh(data)
 //@   invariant forall(k, 0, len(data), len(data[k]) == selWidth(s, len(peersColumns))) [C10]
+// one row per node other than the local one (which sits at index $localIdx), and every row is built
+// with the row count len(nodes)-1 as the value of count(...)
+//@   invariant err == nil && len(data) == rangeindex + 1 - ite(c.proxy.$localIdx <= rangeindex, 1, 0) [C10]
+//@   invariant $sqPeerCount == len(c.proxy.nodes) - 1 [C10]
 //@   invariant c.$sent == old(c.$sent) && c.$executed == old(c.$executed) && $reqStarted == old($reqStarted) && !$useTried && c.keyspace == old(c.keyspace) && c.compression == old(c.compression) && c.codec == old(c.codec)
 
 // interceptSystemQuery: every branch answers with exactly one frame on the request's stream and
@@ -441,6 +496,10 @@ func verifSpecCL(lowered string) primitive.ConsistencyLevel {
 //@   let rows = as($lastMsg, *message.RowsResult)
 //@   ensures rows-metadata: typeis($lastMsg, *message.RowsResult) ==> rows != nil && rows.Metadata != nil && (len(rows.Metadata.Columns) < 2147483648 ==> rows.Metadata.ColumnCount == len(rows.Metadata.Columns)) [C10]
 //@   ensures rows-aligned: typeis($lastMsg, *message.RowsResult) ==> forall(k, 0, len(rows.Data), len(rows.Data[k]) == len(rows.Metadata.Columns)) [C10]
+//@   local $sqPeerCount int = len(c.proxy.nodes) - 1
+//@   after proxy.client.filterSystemPeerValues#* set $sqPeerCount = ite(arg4 == len(c.proxy.nodes) - 1, $sqPeerCount, arg4)
+//@   ensures peers-one-row-per-peer: typeis($lastMsg, *message.RowsResult) && typeis(stmt, *parser.SelectStatement) && old(as(stmt, *parser.SelectStatement).Table) == "peers" ==> len(rows.Data) == len(c.proxy.nodes) - 1 [C10]
+//@   ensures peers-count-is-row-count: $sqPeerCount == len(c.proxy.nodes) - 1 [C10]
 //@   ensures local-one-row: typeis($lastMsg, *message.RowsResult) && typeis(stmt, *parser.SelectStatement) && old(as(stmt, *parser.SelectStatement).Table) == "local" ==> len(rows.Data) == 1 [C10]
 //@   before proxy.Proxy.maybeCreateSession#1 set $useKs = arg2; $useVersion = arg1; $useCompression = arg3
 //@   after proxy.Proxy.maybeCreateSession#1 set $useTried = true; $useOK = (result1 == nil)
